@@ -113,3 +113,6 @@ Proof.
     - apply Pos.eqb_neq in E1. apply Pos.eqb_neq. intros H. apply E1. apply Hinj. exact H. }
   rewrite E. destruct (existsb (Pos.eqb k) seen); [apply IH|]. simpl. f_equal. apply (IH (k :: seen)).
 Qed.
+
+Lemma inventory_nonvacuous : (length containers >= 20)%nat /\ existsb c_ptr containers = true.
+Proof. split; [vm_compute; repeat constructor | vm_compute; reflexivity]. Qed.
